@@ -112,7 +112,7 @@ package secec
 //@
 //@ func NewPrivateKeyFromScalar
 //@   ct
-//@   props C10 C18
+//@   props C10 C18 C05
 //@   split case val(s) == 0
 //@   ensures val(s) == 0 ==> result0 == nil && result1 != nil
 //@   ensures val(s) != 0 ==> result1 == nil && val(result0.scalar) == val(s) && fresh(result0.scalar)
@@ -122,7 +122,7 @@ package secec
 //@   ct
 //@   declassify call NewScalarFromBytes: rejecting an out-of-range key reveals only that the input was invalid
 //@   declassify call IsZero: as above
-//@   props C10 C18
+//@   props C10 C18 C05
 //@   split case len(key) == 32 && os2ipv(key) >= 1 && os2ipv(key) < N
 //@   ensures (len(key) == 32 && os2ipv(key) >= 1 && os2ipv(key) < N) <==> (result1 == nil)
 //@   ensures (len(key) == 32 && os2ipv(key) >= 1 && os2ipv(key) < N) ==> val(result0.scalar) == fn(os2ipv(key)) && fresh(result0.scalar)
@@ -150,7 +150,7 @@ package secec
 //@   fresh result0
 //@
 //@ func (*PrivateKey).PublicKey
-//@   props C10 C18
+//@   props C10 C18 C05
 //@   ensures result == k.publicKey
 //@
 //@ func (*PublicKey).Bytes
@@ -416,7 +416,7 @@ package secec
 //@   ensures isdyn(result, PublicKey)
 //@
 //@ func GenerateKey
-//@   props C10 C18
+//@   props C10 C18 C05
 //@   split case result1 == nil
 //@   ensures result1 == nil ==> lift(val(result0.scalar)) == sampv(old(rdstate(osrand())), 8) && fresh(result0.scalar)
 //@   ensures result1 != nil ==> result0 == nil
